@@ -225,6 +225,8 @@ def gen_model(seed):
         "callback_payload": cb,
         # long vtable entries broken over several lines, as cbindgen does beyond its line length
         "wrap_long": r.chance(1, 2),
+        # a reference to abi_stable's TypeLayout that cbindgen leaves undeclared (examples/plugin-api)
+        "type_layout": r.chance(1, 4),
         "no_context": r.chance(1, 4),
         "leftover": r.chance(2, 3),
         "generic_objs": r.chance(1, 3),
@@ -382,6 +384,9 @@ def render(model):
     w("#ifdef __cplusplus\nextern \"C\" {\n#endif // __cplusplus\n")
     w("void user_free_function(struct UserTail *tail, uintptr_t n);\n")
     foreign.append("void user_free_function(struct UserTail *tail, uintptr_t n);")
+    if model.get("type_layout"):
+        w("extern const TypeLayout *ROOT_LAYOUT;\n")
+        foreign.append("extern const TypeLayout *ROOT_LAYOUT;")
     t0 = model["traits"][0]
     cn0 = cont_name(t0["conts"][0], "CArc_c_void", t0["name"])
     w("int32_t create_%s(struct CArc_c_void *lib, struct %s *out);\n" % (t0["name"].lower(), cn0))
@@ -641,6 +646,9 @@ def render_cpp(model):
     w("extern \"C\" {\n")
     w("void user_free_function(UserTail *tail, uintptr_t n);\n")
     foreign.append("void user_free_function(UserTail *tail, uintptr_t n);")
+    if m.get("type_layout"):
+        w("extern const TypeLayout *ROOT_LAYOUT;\n")
+        foreign.append("extern const TypeLayout *ROOT_LAYOUT;")
     t0 = m["traits"][0]
     w("int32_t create_%s(CArc<void> *lib, MaybeUninit<%sArcBox> *out);\n" % (t0["name"].lower(), t0["name"]))
     foreign.append("int32_t create_%s(" % t0["name"].lower())
